@@ -173,6 +173,36 @@ P.fn(FV + 'verb.invoke', name='verb.invoke/scan', params=dict(self='Macro', tex=
                          'all(not %s for j in range(SCANSTART(), tex.pos))' % (TEQ % ('j', 'endpattern', 'j', 'endpattern', 'j', 'endpattern'))],
                     modifies=[Mod('pos', 'r is tex'), Mod('list:Any', 'r is tokens')])})
 
+# \\verb: the delimiter (function up to the scan loop): taken unexpanded from the stream, and compared as the plain character (category
+# "other") its closing occurrence will be read as under the verbatim category codes -- whatever category its opening occurrence was
+# tokenized with; an opening brace stands for the pair { }
+P.uninterp('CHAR_OF', ['str'], 'str')        # the character of a token's name: the part after "active::" for an active character
+P.fn('str_tok/v', params=dict(x='Any'), returns='str', trusted=True, modifies=[], ensures=['result == x.text'], notes='str(token): its characters')
+P.cls('Parts', fields=dict(whole='str'))
+P.fn('str.split/v', params=dict(self='str', sep='str'), returns='Parts', trusted=True, allocates=True, modifies=[],
+     ensures=['fresh(result)', 'result.whole == self'], notes="str.split('::')")
+P.fn('Parts.pop', params=dict(self='Parts'), returns='str', trusted=True, modifies=[], ensures=['result == CHAR_OF(self.whole)'],
+     notes="the last part of str(token).split('::')")
+P.fn('TeX.itertokens/v', params=dict(self='TeX'), returns='TeX', ensures=['result is self'], trusted=True, modifies=[],
+     notes='TeX.itertokens as the stream view of the unexpanded tokens')
+P.fn('Macro.parse/v', params=dict(self='Macro', tex='TeX'), returns='opaque', trusted=True, allocates=True, modifies=[Mod('pos', 'r is tex')],
+     ensures=['old(tex.pos) <= tex.pos', 'tex.pos < len(XS())'], notes='reads the optional star (C05); a delimiter follows (\\verb at the very end of the input is a TeX error)')
+P.const('Token.CC_BGROUP', 1)
+P.const('Token.CC_OTHER', 12)
+FIRST = 'XS()[tex.pos - 1]'
+P.fn(FV + 'verb.invoke', name='verb.invoke/delimiter', params=dict(self='Macro', tex='TeX'), returns='list[Any]',
+     requires=['0 <= tex.pos', 'tex.pos <= len(XS())', 'all(not isnone(XS()[k]) and XS()[k].nodeType != 1 for k in range(len(XS())))',
+               'ghost("frames") == 0'],
+     stop_before_loop=1, locals={'[]': 'list[Any]', 'tokens': 'list[Any]'},
+     end_ensures=['len(tokens) == 2', 'tokens[0] is self', 'tokens[1] is endpattern', 'ghost("frames") == 1', 'self.delimiter is endpattern',
+                  'endpattern.nodeType != 1', 'endpattern.catcode == 12',
+                  'endpattern.text == ("}" if %s.catcode == 1 else (%s.text if %s.catcode == 12 else CHAR_OF(%s.text)))' % (FIRST, FIRST, FIRST, FIRST)],
+     raises={'UnboundLocalError': 'True'},
+     allocates=True, skip_frame=True,
+     calls={'self.ownerDocument.context.push': 'Context.push', 'self.parse': 'Macro.parse/v', 'self.ownerDocument.context.setVerbatimCatcodes': 'Context.setVerbatimCatcodes',
+            'tex.itertokens': 'TeX.itertokens/v', 'Other': 'Other', 'str': 'str_tok/v', 'str(endpattern).split': 'str.split/v'},
+     loops={0: Loop(inv=['0 <= tex.pos', 'tex.pos < len(XS())', 'ghost("frames") == 1'], modifies=[Mod('pos', 'r is tex'), Mod('delimiter', 'r is self')])})
+
 # \verb digest: the children are exactly the tokens strictly between the two delimiter occurrences
 P.classes['Macro'].fields['kids'] = 'list[Any]'
 P.fields.setdefault('kids', 'list[Any]')
